@@ -87,6 +87,18 @@ CHECKS['C18'] = dict(
          "is argued from the absence of carried state, not by comparing executions.",
     tech="static analysis: scope/lifetime of the evaluator object, static-storage whitelist, AST write/mutating-call reachability from execute (who-writes), path rule for the analyser premise")
 
+CHECKS['C01'] = dict(
+    text="For every angle, register size, index pair and state: symbolic folding (sympy, θ symbolic) of the seven gate matrices proves "
+         "unitarity and equality to the qelib1 references up to global phase; symbolic per-iteration execution of the 2×2 update with "
+         "read-after-write semantics proves the linear map on the (bit clear, bit set) pair; the loop nests are matched against the "
+         "strided-block decompositions (bounds, strides, shifts compared as normalised terms, cx under both operand orderings) whose "
+         "index-set lemma is documented mathematics; the evaluator's dispatch table is compared with the built-in table and the simulator "
+         "gate set, operand by operand.",
+    note=TB + "sympy is trusted for closed-form simplification. The decomposition lemma (the loop nest enumerates each index with the "
+         "required bit pattern exactly once) is carried as documented mathematics; its premises are what is checked. Floating-point "
+         "rounding is not decided. Loop shapes outside the recognised decompositions yield exit 2, not a verdict.",
+    tech="static analysis: symbolic constant folding of extracted expression trees (K-SYM), normalised term comparison of index arithmetic (K-SX), table agreement (K-TABLE)")
+
 NOT_YET = "check not yet built in this round (framework under construction; see DESIGN.md §4 for the planned static rules)"
 
 
